@@ -19,8 +19,6 @@ from __future__ import annotations
 import numpy as np
 import scipy.sparse as sps
 
-import porepy as pp
-
 from pvm.gen import mdg as gm
 from pvm.gen import c26_nonmatching as nm
 from pvm.ref.c25_geometry import Network
@@ -66,9 +64,11 @@ ASSUMPTIONS = [
     "covered primary faces = faces of the current primary grid with exactly one neighbouring "
     "cell whose centre lies (1e-8) on every fracture supporting the secondary grid and inside "
     "the bounding box of the secondary grid",
-    "locality is asserted up to the largest cell/face diameter any grid of the interface had "
-    "before an update: replacements compose the maps through the previous grids, which "
-    "smears weights over one previous cell (not a defect, the statement does not exclude it)",
+    "locality is asserted up to the sum, over the replacements applied so far, of the largest "
+    "cell/face diameter of the interface's grids before the replacement: replacements compose "
+    "the maps through the previous grids, which smears weights over one previous cell each "
+    "time (not a defect; the statement does not exclude it); exact overlap is asserted for "
+    "the meshed state",
     "update_secondary at most once per fracture, update_primary only for 1-d mortars of "
     "networks without touching fractures (documented restrictions); a ValueError of the "
     "geometric matching itself is a documented rejection (counted, history ends); a "
@@ -375,7 +375,9 @@ def check(case, mon):
     memory = {}
 
     def widen():
-        """Before an update: remember the coarsest cell / face of every interface."""
+        """Before an update: every replacement composes the maps through the grids it
+        replaces, which can smear a weight by one cell of those grids; the admissible
+        coupling distance grows by the coarsest cell / face diameter at that time."""
         for intf in mdg.interfaces():
             hi, lo = mdg.interface_to_subdomain_pair(intf)
             d = [0.0]
@@ -383,7 +385,7 @@ def check(case, mon):
                 d.append(float(np.max(intf.cell_diameters())))
                 d.append(float(np.max(lo.cell_diameters())))
                 d.append(float(np.max(hi.cell_diameters())))
-            slack[intf] = max(slack.get(intf, 0.0), max(d))
+            slack[intf] = slack.get(intf, 0.0) + max(d)
 
     def all_interfaces(tag, pmech_for=()):
         for intf in mdg.interfaces():
